@@ -7,8 +7,11 @@
       and pooled, every `use` is by the unique holder.  Instance: every extracted path of
       every user of `visitDocumentCtxPool` / `interimPool` is `Balanced`, and the users are
       exactly the four expected functions.
-  (2) LOCKSET EXCLUSION.  `Theory.Lock.lockset_excludes` (see ZapProofs/Props/C11Lock.lean for the
-      instance on `Gen.Facts.lockFacts`).
+  (2) LOCKSET EXCLUSION (also used by C16 and C20).  `Theory.Lock.lockset_excludes`: if every
+      write of a location happens under its mutex and every read under the mutex or its read
+      lock, then in every interleaving no write overlaps another access.  Instance: the
+      extracted accesses to `SegmentBase.fieldFSTs`, `synonymIndexCache.cache`,
+      `vectorIndexCache.cache`, `Segment.refs`.
 
   MODELLED, NOT VERIFIED
   * Atomic steps at the granularity of extracted events (`get`/`use`/`put`/`ret`); the Go
@@ -20,10 +23,24 @@
     one of the extracted paths is by reading and by the differential/concurrent runs.
   * Threads of one pool only interact through that pool; a thread's calls to users of the other
     pool are invisible to this pool, hence the theorem is stated per pool.
+  * Locks: an access is two atomic steps (enter / leave); `sync.RWMutex` is modelled as
+    writer-exclusive / reader-shared with no fairness.  A `LockFact` only says which locks the
+    extractor saw held AT the access; the call word given to it here is
+    `acquire held ; access ; release held` (`callWord`).  That the lock is the same object for
+    all accesses (the mutex field of the same struct value) is the extractor's "same base
+    expression" rule (tools/README.md item 9).
+  * ASSUMPTION (LOCKED convention): functions named `*LOCKED` are called only with `m` held
+    exclusively; the extractor reports `"m(LOCKED-convention)"` and this file treats it as
+    `"m"`.  By reading: `createAndCacheLOCKED` / `addDocVecIDMapToCacheLOCKED` are called from
+    `loadOrCreate` / `loadFromCache` after `m.Lock()`, `insertLOCKED` only from
+    `createAndCacheLOCKED`.
+  * The Go memory model (happens-before through Lock/Unlock) is outside; so are accesses the
+    extractor does not attribute (aliases of the map, callees two levels down).
 -/
 import ZapModel.Gen.Facts
 import ZapModel.Theory.Str
 import ZapProofs.TheoryLemmasPool
+import ZapProofs.TheoryLemmasLock
 
 namespace Zap.C11
 open Zap.Gen Zap.Gen.PoolEv Zap.Theory Zap.Theory.Pool
@@ -129,8 +146,142 @@ example : ∀ p ∈ goodProgs, ∀ w ∈ p, ∃ f ∈ Facts.poolFns, f.pool = "v
 example : let s := exec (initL goodProgs) [(0, none), (0, none), (0, none), (1, some 0)]
           s.pool = [] ∧ holds (s.thr 1) 0 ∧ ¬ holds (s.thr 0) 0 := by decide
 
+
+/-! ## Lockset exclusion -/
+
+namespace Lockset
+open Zap.Theory.Lock
+
+/-- The watched locations and the mutex (field `m` of the same struct) guarding each. -/
+def watched : List (Loc × Mutex) := [
+  ("SegmentBase.fieldFSTs", "SegmentBase.m"),
+  ("synonymIndexCache.cache", "synonymIndexCache.m"),
+  ("vectorIndexCache.cache", "vectorIndexCache.m"),
+  ("Segment.refs", "Segment.m")
+]
+
+def mutexOf (x : Loc) : Mutex := (watched.lookup x).getD "?"
+
+/-- Events acquiring / releasing one extracted `held` entry.  `"m(LOCKED-convention)"` is
+    treated as `"m"` (ASSUMPTION, see header).  Anything else acquires nothing, so the access
+    is then unguarded and the check fails. -/
+def acquire (m : Mutex) (h : String) : List Ev :=
+  if h = "m" ∨ h = "m(LOCKED-convention)" then [.lock m]
+  else if h = "m.R" then [.rlock m] else []
+
+def release (m : Mutex) (h : String) : List Ev :=
+  if h = "m" ∨ h = "m(LOCKED-convention)" then [.unlock m]
+  else if h = "m.R" then [.runlock m] else []
+
+/-- The word given to one extracted access: acquire what was held, access, release.
+    An access kind other than "read" is treated as a write. -/
+def callWord (f : LockFact) : List Ev :=
+  let m := mutexOf f.location
+  (f.held.map (acquire m)).flatten
+    ++ [if f.access = "read" then .read f.location else .write f.location]
+    ++ (f.held.reverse.map (release m)).flatten
+
+/-- Accesses that must be present (function, location, access): a deleted access or function
+    must not pass vacuously. -/
+def expectedAccesses : List (String × String × String) := [
+  ("Segment.AddRef", "Segment.refs", "write"),
+  ("Segment.DecRef", "Segment.refs", "write"),
+  ("Segment.DecRef", "Segment.refs", "read"),
+  ("SegmentBase.dictionary", "SegmentBase.fieldFSTs", "read"),
+  ("SegmentBase.dictionary", "SegmentBase.fieldFSTs", "write"),
+  ("synonymIndexCache.Clear", "synonymIndexCache.cache", "write"),
+  ("synonymIndexCache.insertLOCKED", "synonymIndexCache.cache", "write"),
+  ("synonymIndexCache.loadOrCreate", "synonymIndexCache.cache", "read"),
+  ("vectorIndexCache.Clear", "vectorIndexCache.cache", "write"),
+  ("vectorIndexCache.cleanup", "vectorIndexCache.cache", "write"),
+  ("vectorIndexCache.insertLOCKED", "vectorIndexCache.cache", "write"),
+  ("vectorIndexCache.loadFromCache", "vectorIndexCache.cache", "read"),
+  ("vectorIndexCache.incHit", "vectorIndexCache.cache", "read"),
+  ("vectorIndexCache.decRef", "vectorIndexCache.cache", "read")
+]
+
+/-- Decidable side condition on the extracted lock facts:
+    * no string is an extraction-failure marker;
+    * every fact is about a watched location, with access "read" or "write";
+    * every fact's call word is `callOK` for its location and that location's mutex: a write
+      holds "m" (or the LOCKED convention), a read holds "m" or "m.R" (or the convention);
+    * every expected (function, location, access) is present. -/
+def lockSideCondition (fs : List LockFact) : Bool :=
+  fs.all (fun f =>
+      !unrec f.fn && !unrec f.location && !unrec f.access && allRecognised f.held
+      && (watched.map (·.1)).contains f.location
+      && (f.access == "read" || f.access == "write")
+      && callOK f.location (mutexOf f.location) (callWord f))
+  && expectedAccesses.all (fun e => fs.any (fun f => (f.fn, f.location, f.access) == e))
+
+/-- INSTANCE: the obligation that breaks when the Go source changes. -/
+theorem lockSideCondition_holds : lockSideCondition Facts.lockFacts = true := by decide +kernel
+
+/-- C11 / C16 / C20, lockset clause: for each watched location `x`, any number of goroutines,
+    each performing any sequence of the extracted accesses to `x` (each with the locks the
+    extractor saw held): in EVERY interleaving no write to `x` overlaps another access to `x`. -/
+theorem C11_lockset (x : Loc) (calls : Nat → List LockFact)
+    (hcalls : ∀ i, ∀ f ∈ calls i, f ∈ Facts.lockFacts ∧ f.location = x)
+    (sched : List Nat) :
+    ¬ Conflict (exec (init fun i => ((calls i).map callWord).flatten) sched) x := by
+  apply lockset_excludes x (mutexOf x)
+  intro i
+  apply disciplined_flatten
+  intro w hw
+  obtain ⟨f, hf, rfl⟩ := List.mem_map.mp hw
+  obtain ⟨hmem, hloc⟩ := hcalls i f hf
+  have h := lockSideCondition_holds
+  simp only [lockSideCondition, Bool.and_eq_true, List.all_eq_true] at h
+  have := (h.1 f hmem).2
+  rw [hloc] at this
+  exact this
+
+/-! ### The side condition rejects unguarded accesses, missing entries, failures -/
+
+/-- `dictionary` writing `fieldFSTs` without the lock. -/
+example : lockSideCondition
+    (Facts.lockFacts ++ [{ fn := "SegmentBase.foo", location := "SegmentBase.fieldFSTs",
+                           access := "write", held := [] }]) = false := by decide +kernel
+
+/-- A write under the read lock only. -/
+example : lockSideCondition
+    (Facts.lockFacts ++ [{ fn := "vectorIndexCache.foo", location := "vectorIndexCache.cache",
+                           access := "write", held := ["m.R"] }]) = false := by decide +kernel
+
+/-- `AddRef` deleted from the facts. -/
+example : lockSideCondition (Facts.lockFacts.drop 1) = false := by decide +kernel
+
+example : lockSideCondition
+    (Facts.lockFacts ++ [{ fn := "f", location := "UNRECOGNISED location x.cache",
+                           access := "read", held := ["m"] }]) = false := by decide +kernel
+
+/-- Without the discipline the conflict IS reachable: an unguarded writer and a reader under
+    the read lock are inside their accesses at the same time. -/
+def badWords : List (List Ev) :=
+  [ [.write "vectorIndexCache.cache"],
+    [.rlock "vectorIndexCache.m", .read "vectorIndexCache.cache", .runlock "vectorIndexCache.m"] ]
+
+example : let s := exec (initL badWords) [1, 1, 0]
+          insideWriteB (s.thr 0) "vectorIndexCache.cache" = true
+          ∧ insideReadB (s.thr 1) "vectorIndexCache.cache" = true := by decide +kernel
+
+/-- Hypotheses are satisfiable, and the model does let two readers overlap (so exclusion of
+    writers is not an artefact of a model in which nothing overlaps): `loadFromCache` twice. -/
+example : let rd : LockFact := { fn := "vectorIndexCache.loadFromCache",
+                                  location := "vectorIndexCache.cache", access := "read",
+                                  held := ["m.R"] }
+          rd ∈ Facts.lockFacts
+          ∧ (let s := exec (initL [callWord rd, callWord rd]) [0, 0, 1, 1]
+             insideReadB (s.thr 0) "vectorIndexCache.cache" = true
+             ∧ insideReadB (s.thr 1) "vectorIndexCache.cache" = true) := by decide +kernel
+
+end Lockset
+
 end Zap.C11
 
 #print axioms Zap.Theory.Pool.pool_safe
 #print axioms Zap.C11.poolSideCondition_holds
 #print axioms Zap.C11.C11_pool
+#print axioms Zap.Theory.Lock.lockset_excludes
+#print axioms Zap.C11.Lockset.lockSideCondition_holds
+#print axioms Zap.C11.Lockset.C11_lockset
